@@ -13,7 +13,13 @@ pub fn generate(g: &mut Gen, thorough: bool) {
     for name in proj::PROJECTIONS {
         for _ in 0..rounds {
             let d: ProjDef = proj::random(&mut g.rng, name);
-            let pts = proj::points(&mut g.rng, &d, 8);
+            let mut pts = proj::points(&mut g.rng, &d, 8);
+            if name == "lcc" {
+                // the pole on the side of the cone's apex is a point of the domain like any other
+                let pole = std::f64::consts::FRAC_PI_2.copysign(d.centre.1);
+                pts.push([d.lon_0.to_radians() + 0.3, pole, 0.0, 0.0]);
+                pts.push([d.lon_0.to_radians(), pole - 1e-11f64.copysign(pole), 5.0, 2000.0]);
+            }
             let def = d.def();
             // the model on the same definition, both directions
             g.push(op_line("default", &[], &[], &def, "apply", "F", &data_of(&pts)), &format!("model-{name}-fwd"), true);
